@@ -381,7 +381,7 @@ def probe_signature(db, f):
         else:
             # (h + i*s) % T with i the loop variable starting at 1
             ok = False
-            if (hs,) in keys and keys[(hs,)] == 1 and len(keys) == 2:
+            if (hs,) in keys and keys[(hs,)] == 1 and len(keys) == 2 and tgt != ("local", start[0]):
                 other = [k_ for k_ in keys if k_ != (hs,)][0]
                 if len(other) == 2 and ss in other and keys[other] == 1:
                     iv = [x for x in other if x != ss][0]
@@ -509,6 +509,29 @@ def r_bucket(db, rep):
                     okc = any(canon(sbg.sym(strip(c)["lhs"])) == want or canon(sbg.sym(strip(c)["rhs"])) == want for c in rem if strip(c)["k"] == "BinaryOperator")
                     assigns = [w for lv, w in written_lvalues(g) if any(x is w for x in walk(n["then"]))]
                     oka = any(w.get("rhs") is not None and canon(sbg.sym(w["rhs"])) == want for w in assigns)
+                    # the bucket compared with `buckets` is the one whose header was fetched last
+                    bvars = [access_path(g, strip(c)["lhs"]) if access_path(g, strip(c)["rhs"]) == ("this", "buckets") else access_path(g, strip(c)["rhs"])
+                             for c, p in atoms_ if strip(c)["k"] == "BinaryOperator" and strip(c)["op"] == "==" and
+                             ("this", "buckets") in (access_path(g, strip(c)["lhs"]), access_path(g, strip(c)["rhs"]))]
+                    npos = None
+                    for c, p in atoms_:
+                        if strip(c)["k"] == "BinaryOperator" and strip(c)["op"] == "==" and \
+                                ("this", "buckets") in (access_path(g, strip(c)["lhs"]), access_path(g, strip(c)["rhs"])):
+                            npos = g.cfg.position(strip(c))
+                    fetch = None
+                    for cl in g.calls():
+                        if callee_name(cl) in ("getHeader", "decodeHeader") and cl.get("args"):
+                            cp = g.cfg.position(cl)
+                            if cp and npos and g.cfg.dominates(cp, npos):
+                                if fetch is None or g.cfg.dominates(g.cfg.position(fetch), cp):
+                                    fetch = cl
+                    if fetch is not None and bvars:
+                        rep.ob()
+                        fb = access_path(g, fetch["args"][0])
+                        if fb is not None and bvars[0] is not None and fb != bvars[0]:
+                            rep.viol("%s#last-bucket-var" % g.qn, g.nloc(n),
+                                     "%s fetches the header of one bucket (%s) but decides `is this the last, shorter bucket` on another variable (%s)" % (
+                                         g.qn, fmt_path(g, fb), fmt_path(g, bvars[0])), g.qn)
                     if not (okc and oka):
                         rep.viol("%s#last-bucket" % g.qn, g.nloc(n),
                                  "%s: the size of the last bucket is not taken as elements %% bucketsize under `bucket == buckets && elements %% bucketsize != 0`" % g.qn, g.qn)
@@ -576,6 +599,24 @@ def r_fmmap(db, rep):
                 rep.viol("%s#row-mapping" % f.qn, f.nloc(n), "%s does not map id == last to row 2 and any other id to row id+3" % f.qn, f.qn)
         if not found:
             rep.viol("%s#row-mapping-missing" % f.qn, f.loc, "%s lacks the `id == last ? 2 : id+3` row mapping" % f.qn, f.qn)
+    # every FM-index string iterator is told the dictionary's last id (= elements): that id maps to row 2
+    for g in db.methods_of("StringDictionaryFMINDEX"):
+        for n in g.live_nodes():
+            if n["k"] == "CXXNewExpr" and n.get("init") is not None:
+                ce = strip(n["init"])
+                if ce["k"] == "CXXConstructExpr" and ce.get("rec", "").startswith("IteratorDictStringFMINDEX"):
+                    ct = db.funcs.get(ce.get("f"))
+                    if ct is None:
+                        continue
+                    li = next((i for i, p in enumerate(ct.params) if p["n"] == "last"), None)
+                    if li is None or li >= len(ce["args"]):
+                        continue
+                    rep.inst(g.nloc(n), "%s creates %s with last=%s" % (g.qn, ce["rec"], canon(SeqBuilder(db, g, "c", nosubst=True).sym(ce["args"][li]))))
+                    rep.ob()
+                    if access_path(g, ce["args"][li]) != ("this", "elements"):
+                        rep.viol("%s#iterator-last" % g.qn, g.nloc(n),
+                                 "%s passes %s as the iterator's last id; the id that maps to BWT row 2 is `elements`" % (
+                                     g.qn, canon(SeqBuilder(db, g, "c", nosubst=True).sym(ce["args"][li]))), g.qn)
     # inverse direction: -2
     f = method(db, "StringDictionaryFMINDEX", "locate")
     rep.visit(f)
@@ -666,3 +707,135 @@ def r_grow(db, rep):
                 rep.viol("%s#if-guard:%s" % (f.qn, bname), f.nloc(ctl),
                          "%s guards the growth of %s with `if`: after one doubling the buffer may still be too small for what is appended "
                          "next (small initial capacity, long bucket): heap overflow during construction" % (f.qn, bname), f.qn)
+
+
+# ---------------------------------------------------------------------------------------------------
+def _vbsize(v):
+    n = 1
+    while v > 127:
+        v >>= 7
+        n += 1
+    return n
+
+
+symx.KNOWN_FUNCS["vbsize"] = _vbsize
+
+
+@rule("R-SLACK", 1, "PFC constructor (the front end of all five front-coding builders): the capacity guard's slack covers the largest "
+                    "extent one iteration can append, for every string length and shared-prefix length (extent formulas extracted from "
+                    "the append statements, maximised over the whole domain)")
+def r_slack(db, rep):
+    import itertools
+    c = [f for f in db.methods_of("StringDictionaryPFC") if f.is_ctor and f.params][0]
+    rep.visit(c)
+    guard = None
+    for n in c.live_nodes():
+        if n["k"] == "WhileStmt" and any(callee_name(x) == "Reallocate" for x in walk(n["body"]) if x["k"] == "CallExpr"):
+            guard = n
+    if guard is None:
+        raise AnalysisBroken("PFC constructor: capacity guard not found")
+    cond = strip(guard["cond"])
+    if cond["k"] != "BinaryOperator" or cond["op"] not in (">", ">="):
+        raise AnalysisBroken("PFC constructor: capacity guard is not of the form used + slack > capacity")
+    used = ("this", "bytesStrings")
+    sb = SeqBuilder(db, c, "c", nosubst=True)
+    # length variable: the out-argument of it->next(&len)
+    lenv = None
+    for n in c.calls():
+        if callee_name(n) == "next" and n.get("args"):
+            a = strip(n["args"][0])
+            if a["k"] == "UnaryOperator" and a["op"] == "&":
+                lenv = access_path(c, a["sub"])
+    if lenv is None:
+        raise AnalysisBroken("PFC constructor: length variable not found")
+    LEN, LCP = ("local", lenv[1]), None
+    sb.env[lenv] = LEN
+    sb.env[used] = ("field", used)
+    slack = mk_op("-", sb.sym(cond["lhs"]), ("field", used))
+    # enclosing loop body: statements after the guard
+    loop = next(a for a in c.ancestors(guard) if a["k"] in ("WhileStmt", "ForStmt"))
+    body = loop["body"]["c"]
+    after = body[body.index(guard) + 1:]
+    paths = [[]]
+
+    def expand(stmts, prefixes):
+        for st in stmts:
+            if st["k"] == "IfStmt":
+                t = expand(st["then"]["c"] if st["then"]["k"] == "CompoundStmt" else [st["then"]], [list(p) for p in prefixes])
+                e = expand((st["else"]["c"] if st["else"]["k"] == "CompoundStmt" else [st["else"]]) if st.get("else") else [], [list(p) for p in prefixes])
+                prefixes = t + e
+            elif st["k"] == "CompoundStmt":
+                prefixes = expand(st["c"], prefixes)
+            else:
+                for p in prefixes:
+                    p.append(st)
+        return prefixes
+    paths = expand(after, paths)
+    rep.inst(c.nloc(guard), "PFC constructor: slack %s, %d append paths per iteration" % (canon(slack), len(paths)))
+    worst = None
+    for pth in paths:
+        off = C(0)          # bytesStrings - bytesStrings@guard
+        ext = C(0)          # max index written + 1, relative to bytesStrings@guard
+        lcp = None
+
+        def dst_off(e):
+            """offset of a destination pointer expression textStrings + bytesStrings (+k)"""
+            s = sb.sym(e)
+            pl = symx.poly(s)
+            return None
+
+        for st in pth:
+            for n in walk(st):
+                k = n["k"]
+                if k == "CallExpr" and callee_name(n) == "longestCommonPrefix":
+                    a = strip(n["args"][3])
+                    if a["k"] == "UnaryOperator" and a["op"] == "&":
+                        lcp = access_path(c, a["sub"])
+                        sb.env[lcp] = ("local", lcp[1])
+            s0 = strip(st)
+            # appends
+            for n in walk(st):
+                if n["k"] == "CallExpr" and callee_name(n) in ("strcpy", "strncpy", "memcpy"):
+                    d = strip(n["args"][0])
+                    if any(access_path(c, x) == ("this", "textStrings") for x in walk(d) if x["k"] == "MemberExpr"):
+                        if callee_name(n) == "strcpy":
+                            size = mk_op("+", LEN, C(1))       # copies the terminator too
+                        else:
+                            size = sb.sym(n["args"][2])
+                        ext = ("call", "max", (ext, mk_op("+", off, size)))
+                if n["k"] == "CallExpr" and callee_name(n) == "encode" and n.get("frec") == "VByte":
+                    size = ("call", "vbsize", (sb.sym(n["args"][0]),))
+                    ext = ("call", "max", (ext, mk_op("+", off, size)))
+            if is_assignment(s0):
+                lp = access_path(c, s0["lhs"])
+                sl = strip(s0["lhs"])
+                if sl["k"] == "ArraySubscriptExpr" and access_path(c, sl["base"]) == ("this", "textStrings") and access_path(c, sl["idx"]) == used:
+                    ext = ("call", "max", (ext, mk_op("+", off, C(1))))
+                if lp == used and s0["op"] == "+=":
+                    r = strip(s0["rhs"])
+                    if r["k"] == "CallExpr" and callee_name(r) == "encode":
+                        off = mk_op("+", off, ("call", "vbsize", (sb.sym(r["args"][0]),)))
+                    else:
+                        off = mk_op("+", off, sb.sym(s0["rhs"]))
+            if s0["k"] == "UnaryOperator" and s0["op"] == "++" and access_path(c, s0["sub"]) == used:
+                off = mk_op("+", off, C(1))
+        symx.KNOWN_FUNCS.setdefault("max", lambda a, b: max(a, b))
+        rep.ob()
+        # maximise over the domain: len 1..300 (and a few large), 0 <= lcp <= len
+        for ln in list(range(1, 200)) + [255, 256, 1000, 20000]:
+            for lc in (range(0, ln + 1) if lcp is not None else [0]):
+                val = {LEN: ln, ("field", used): 1000}     # the fill level cancels out of both sides
+                if lcp is not None:
+                    val[("local", lcp[1])] = lc
+                e = symx.evaluate(ext, val)
+                sv = symx.evaluate(slack, val)
+                if e is None or sv is None:
+                    continue
+                if e > sv and (worst is None or (e - sv) > worst[0]):
+                    worst = (e - sv, ln, lc, e, sv, canon(ext))
+    if worst is not None:
+        rep.viol("StringDictionaryPFC::StringDictionaryPFC#slack", c.nloc(guard),
+                 "the PFC constructor guarantees %s free bytes before an iteration but can append %d bytes (string length %d, shared prefix %d): "
+                 "when the buffer is filled to the guard's limit the last %d byte(s) land past textStrings" % (
+                     canon(slack), worst[3], worst[1], worst[2], worst[0]), c.qn,
+                 {"slack": canon(slack), "witness_len": worst[1], "witness_lcp": worst[2], "extent": worst[3]})
